@@ -58,12 +58,19 @@ def cdataText : Bytes → Bytes
   | b :: r => b :: cdataText r
   | [] => []
 
-/-- Who the parent is, as far as `xml_encode_tag` looks: nothing (root), an element, or another
-    kind of node. -/
+/-- The nearest ancestor with a code page, as `xml_encode_tag` finds it walking up `parent` links:
+    nothing (`none`: the root, or only literal elements / CDATA nodes above), or a token element
+    (`elt (.token r)`). `elt (.literal _)` and `other` are no longer produced by `xmlNode`. -/
 inductive Parent where
   | none
   | elt (n : Name)
   | other
+
+/-- The scope handed to the children of an element called `name` whose own scope is `parent`. -/
+def childScope (parent : Parent) (name : Name) : Parent :=
+  match name with
+  | .token _ => .elt name
+  | .literal _ => parent
 
 def nsOfPageX (ns : List NsRow) (page : Nat) : Option Bytes :=
   (ns.find? (fun r => r.page == page)).map (·.ns)
@@ -162,7 +169,9 @@ def xmlNode (c : XCfg) (parent : Parent) : Nat → Node → XSt → Except Err X
       let st := xmlTag c parent name st
       let st := if c.lang.attrs.isSome then attrs.foldl (fun st a => xmlAttr c a st) st else st
       let st := xmlEndAttrs c kids st
-      let st ← xmlNodes c (.elt name) f kids st
+      -- the namespace in scope below a literal element (no code page, declares nothing) is still the
+      -- one of the nearest token element above it
+      let st ← xmlNodes c (childScope parent name) f kids st
       let st := if kids.isEmpty then st else xmlEndTag c name kids st
       pure { st with curTag := none }
     | .text s => do
@@ -170,7 +179,7 @@ def xmlNode (c : XCfg) (parent : Parent) : Nat → Node → XSt → Except Err X
       pure { st with curTag := none }
     | .cdata kids => do
       let st := { st with inCdata := true, out := st.out ++ b!"<![CDATA[" }
-      let st ← xmlNodes c .other f kids st
+      let st ← xmlNodes c parent f kids st      -- a CDATA node has no code page either
       pure { st with inCdata := false, out := st.out ++ b!"]]>", curTag := none }
     | .tree lang _ root =>
       -- xml_encode_tree: a duplicated encoder without header, appended as a C string
@@ -223,11 +232,32 @@ def treeOfWbxml (main : List Lang) : Nat → Nat → Nat → Bytes → Except Er
       | some e => .error (.code e)
       | none => .ok { lang := b.lang, origCharset := b.charset, root := b.root }
 
+mutual
+/-- Recursion budget that `xmlNode` needs for a node: one unit per nesting level and per sibling
+    (`parse_node` recurses into `children` and walks `next`). The C code has no budget — it just
+    recurses; the model's fuel is a termination device and `wbxml2xml` supplies exactly this amount,
+    computed from the tree itself, so that it can never be the reason for a result. -/
+def Node.xmlFuel : Node → Nat
+  | .elt _ _ kids => Node.xmlFuelL kids + 1
+  | .text _ => 1
+  | .cdata kids => Node.xmlFuelL kids + 1
+  | .tree _ _ none => 1
+  | .tree _ _ (some r) => r.xmlFuel + 1
+def Node.xmlFuelL : List Node → Nat
+  | [] => 1
+  | n :: rest => max n.xmlFuel (Node.xmlFuelL rest) + 1
+end
+
+def Tree.xmlFuel (t : Tree) : Nat :=
+  match t.root with
+  | some r => r.xmlFuel
+  | none => 1
+
 /-- `wbxml_conv_wbxml2xml_run`. -/
 def wbxml2xml (cfg : W2XCfg) (wbxml : Bytes) : Except Err Bytes :=
   if wbxml.isEmpty then .error (.code 12)
   else do
     let t ← treeOfWbxml cfg.main (wbxml.length + 1) cfg.lang cfg.charset wbxml
-    treeToXml cfg (2 * wbxml.length + 4) t
+    treeToXml cfg t.xmlFuel t
 
 end Wbxml.Model
